@@ -1385,6 +1385,12 @@ func fixedOffsetCase(c *core.Ctx, r *rand.Rand) {
 			}
 		}
 		guard(c, "fe size 0", func() string { return fmt.Sprint(enc.Size()) })
+		guard(c, "fe empty 0", func() string {
+			if enc.IsEmpty() != (enc.Size() == 0) {
+				c.Fail("fo-is-empty", fmt.Sprintf("IsEmpty() = %v on an encoder of %d offsets", enc.IsEmpty(), enc.Size()))
+			}
+			return fmt.Sprint(enc.IsEmpty())
+		})
 		var data []byte
 		guard(c, "fe marshal 0", func() string { data = cp(enc.MarshalBinary()); return hx(data) })
 		if r.Intn(2) == 0 {
